@@ -12,7 +12,7 @@ sys.path.insert(0, HERE)
 NOT_BUILT = "check not built yet in this session (planned in DESIGN.md; not a limit of the technique)"
 NA_REASONS = {}
 # only checks that have been run quiet at 5 seeds and against their mutants are registered
-READY = {"C01", "C02", "C03", "C04", "C05", "C06", "C07", "C08", "C09", "C12", "C13", "C14", "C15", "C16", "C17", "C18", "C19", "C20"}
+READY = {"C01", "C02", "C03", "C04", "C05", "C06", "C07", "C08", "C09", "C10", "C11", "C12", "C13", "C14", "C15", "C16", "C17", "C18", "C19", "C20"}
 
 props = [json.loads(l) for l in open(os.path.join(HERE, "properties.jsonl"))]
 checks = []
